@@ -355,7 +355,7 @@ class Rendering:
         """render one quantity: bare in the enclosing system, or explicit units in another"""
         form = self.r.choice(self.forms)
         if form == "bare":
-            return q_bare(si_value, enclosing, dim3)
+            return self.num(q_bare(si_value, enclosing, dim3))
         own = self.sys_draw(self.r) if self.same is None else self.same
         num = q_bare(si_value, own, dim3)
         ustr = si.unit_string(own, dim3, style=self.r.choice([0, 1]))
@@ -366,8 +366,34 @@ class Rendering:
 
     def per_env(self, v, dim3, enclosing):
         if isinstance(v, dict):
-            return self.keep({k: self.q(x, dim3, enclosing) for k, x in v.items()})
+            keys = list(v)
+            self.r.shuffle(keys)            # the meaning of a per-environment dictionary does not depend on its key order
+            return self.keep({k: self.q(v[k], dim3, enclosing) for k in keys})
         return self.q(v, dim3, enclosing)
+
+    def seq(self, values, integer=False):
+        """a sequence of numbers in one of the container / number types the library documents as equivalent"""
+        import numpy as _np
+        form = self.r.choice(["list", "list", "tuple", "ndarray", "list-of-numpy-scalars"])
+        if form == "list":
+            return self.keep(list(values))
+        if form == "tuple":
+            return tuple(values)
+        if form == "ndarray":
+            return self.keep(_np.array(values, dtype=int if integer else float))
+        return self.keep([(_np.int64(v) if integer else _np.float64(v)) for v in values])
+
+    def num(self, x):
+        """a plain number as float, int (when integral) or a numpy scalar"""
+        import numpy as _np
+        c = self.r.random()
+        if c < 0.6 or isinstance(x, str) or not isinstance(x, (int, float)):
+            return x
+        if c < 0.8:
+            return _np.float64(x)
+        if float(x).is_integer() and abs(x) < 2 ** 52:
+            return int(x) if c < 0.9 else _np.int64(int(x))
+        return x
 
 
 def eq_string(sub, prod, r=None):
@@ -425,17 +451,19 @@ def render_space(desc, rd, parent_sys):
     sp = desc["space"]
     ssys = rd.level("space", parent_sys)
     if sp["type"] == "grid":
-        return RDGridSpace(w=sp["w"], h=sp["h"], d=sp["d"], cell_env=rd.keep(list(sp["cell_env"])),
+        return RDGridSpace(w=rd.num(sp["w"]), h=rd.num(sp["h"]), d=rd.num(sp["d"]),
+                           cell_env=(rd.seq(sp["cell_env"], integer=True) if len(set(sp["cell_env"])) > 1 or rd.r.random() < 0.7
+                                     else rd.num(sp["cell_env"][0])),
                            cell_vol=rd.q(sp["cell_vol"], VOL_DIM, ssys), boundary_conditions=rd.keep(bc_dict_form(sp["bc"], rd.r)),
                            units_system=UnitsSystem(**si.sys_dict(ssys)))
     nodes, edges = [], []
     for n, nd in enumerate(sp["nodes"]):
         nsys = rd.level("node%d" % n, ssys)
-        nodes.append(RDGraphSpaceNode(volume=rd.q(nd["vol"], VOL_DIM, nsys), environment=nd["env"],
+        nodes.append(RDGraphSpaceNode(volume=rd.q(nd["vol"], VOL_DIM, nsys), environment=rd.num(nd["env"]),
                                       units_system=UnitsSystem(**si.sys_dict(nsys))))
     for n, e in enumerate(sp["edges"]):
         esys = rd.level("edge%d" % n, ssys)
-        edges.append(RDGraphSpaceEdge(i=e["i"], j=e["j"], surface=rd.q(e["sfc"], SFC_DIM, esys),
+        edges.append(RDGraphSpaceEdge(i=rd.num(e["i"]), j=rd.num(e["j"]), surface=rd.q(e["sfc"], SFC_DIM, esys),
                                       distance=rd.q(e["dst"], LEN_DIM, esys),
                                       units_system=UnitsSystem(**si.sys_dict(esys))))
     return RDGraphSpace(nodes=rd.keep(list(nodes)), edges=rd.keep(list(edges)), units_system=UnitsSystem(**si.sys_dict(ssys)))
@@ -451,13 +479,13 @@ def render_system(desc, rd):
     if desc["state"] is not None:
         form = "bare" if rd.molecule_state else rd.r.choice(["bare", "ua"])
         if form == "bare":
-            kw["state"] = rd.keep([q_bare(x, sysu, Q_DIM) for x in desc["state"]])
+            kw["state"] = rd.seq([q_bare(x, sysu, Q_DIM) for x in desc["state"]])
         else:
             own = rd.sys_draw(rd.r) if rd.same is None else rd.same
             kw["state"] = rd.keep(UnitArray([q_bare(x, own, Q_DIM) for x in desc["state"]], own[2]))
     if desc["chemostats"] is not None:
         import numpy as _np
-        kw["chemostats"] = rd.keep(list(desc["chemostats"]) if rd.r.random() < 0.5 else _np.array(desc["chemostats"], dtype=int))
+        kw["chemostats"] = rd.seq(list(desc["chemostats"]), integer=True)
     system = RDSystem(network=net, space=space, units_system=UnitsSystem(**si.sys_dict(sysu)), **kw)
     rd.scribble()
     return system
@@ -565,4 +593,13 @@ def system_dict(desc, rd, parent_sys=None):
             d["state"] = [q_bare(x, sysu, Q_DIM) for x in desc["state"]]
     if desc["chemostats"] is not None:
         d["chemostats"] = list(desc["chemostats"])
-    return d
+
+    def shuffled(x):
+        if isinstance(x, dict):
+            ks = list(x)
+            r.shuffle(ks)
+            return {k_: shuffled(x[k_]) for k_ in ks}
+        if isinstance(x, list):
+            return [shuffled(v) for v in x]
+        return x
+    return shuffled(d)       # the meaning of a dictionary does not depend on the order of its keys
